@@ -118,6 +118,7 @@ pub fn shared_ops<S: HB>(c: &Cache<S>, universe: u32, marker: Option<&str>) -> u
     mark("keys"); for k in c.keys() { acc = mix(&[acc, k.uid]); } for k in c.keys().rev() { acc = mix(&[acc, k.uid]); }
     mark("values"); for v in c.values() { acc = mix(&[acc, v.uid]); } for v in c.values().rev() { acc = mix(&[acc, v.uid]); }
     mark("debug"); acc = mix(&[acc, format!("{:?}", c).len() as u64]);
+    mark("debug alternate / padded"); acc = mix(&[acc, format!("{:#?}", c).lines().count() as u64, format!("{:>8?}", c).len() as u64]);
     mark("clone"); { let d = c.clone(); acc = mix(&[acc, d.len() as u64, d.current_size() as u64]); mark("drop clone"); drop(d); }
     mark("verif_walk (hook)"); acc = mix(&[acc, c.verif_walk(c.len() + 4).forward.len() as u64]);
     acc
